@@ -8,6 +8,11 @@ import json, os, random, time
 from . import core
 
 
+# which real stream identities the three model streams get: neighbouring tuples differ in exactly ONE component
+# (identification, protocol, VLAN id, channel, source, destination, IPv4 vs IPv6, upper 16 bits of the IPv6 identification)
+PAIRS = [[0, 1, 2], [0, 3, 4], [0, 5, 10], [6, 7, 8], [6, 11, 12], [6, 13, 0], [3, 9, 0], [1, 10, 5], [11, 12, 13], [6, 0, 2], [7, 6, 11], [4, 0, 10]]
+
+
 def mc(tier, wd):
     cfg = os.path.join(wd, 'MC_Defrag.cfg')
     consts = {'Streams': '{1, 2}', 'Len0': None, 'L1': 19, 'L2': 16, 'L3': 8, 'MaxDeliveries': 5 if tier == 'quick' else 7,
@@ -118,7 +123,7 @@ def run(pid, tier, seed, replay=None):
             for i, h in enumerate(hists):
                 h = dict(h)
                 h['id'] = '%s%d' % (label[0], i)
-                h.setdefault('map', [(i * 3 + k) % 10 for k in range(3)] if i % 2 else [0, 1 + i % 9, (2 + i) % 10])
+                h.setdefault('map', PAIRS[i % len(PAIRS)])
                 if len(set(h['map'])) < 3:
                     h['map'] = [0, 1, 2]
                 hists[i] = h
